@@ -142,7 +142,7 @@ theorem C03_consts : 0 < security.DefaultMaxFailures ∧ security.DefaultMaxFail
 /-- `ClientConfig.IsExpired` as translated from the source: no expiry time = never expired -/
 theorem C03_isExpired (now : Nat) (c : ClientConfigT) :
     models.ClientConfig.IsExpired now c = (match c.ExpiresAt with | none => false | some t => decide (t < now)) := by
-  cases h : c.ExpiresAt <;> simp [models.ClientConfig.IsExpired, h, PredPrelude.timeAfter, PredPrelude.TimeLike.toTime]
+  rw [isExpired_eq]; rfl
 
 /-! ## The property -/
 
@@ -265,6 +265,9 @@ theorem track_lists (g : Env) (now nc : Nat) (e : Event) (r : RespObs) :
     cases hn : g.resolveN nr <;> simp [Env.track, Env.resolve, hn]
   | exp k => simp only [Env.track]; split <;> exact ⟨rfl, rfl, rfl⟩
   | unexp k => simp only [Env.track]; split <;> exact ⟨rfl, rfl, rfl⟩
+  | claim k => simp only [Env.track]; split <;> exact ⟨rfl, rfl, rfl⟩
+  | bind k => simp only [Env.track]; split <;> exact ⟨rfl, rfl, rfl⟩
+  | ext k => simp only [Env.track]; split <;> exact ⟨rfl, rfl, rfl⟩
   | del k => simp only [Env.track]; split <;> exact ⟨rfl, rfl, rfl⟩
   | strip k st => simp only [Env.track]; split <;> exact ⟨rfl, rfl, rfl⟩
   | fc c ty => exact ⟨rfl, rfl, rfl⟩
@@ -378,6 +381,40 @@ theorem C03_unusable_never (s : Srv) (c : Nat) (ty : Ty) (x : Nat) (rr : RespRef
       subst hx
       simp only [flagsOK, Bool.and_eq_true, beq_iff_eq] at hf
       exact hu hf.2
+  rw [hr]
+  constructor
+  · intro h
+    obtain ⟨c0, _, k, _, _, _, _, _, j⟩ := sp.rok h
+    exact no _ c0 k j
+  · intro c'
+    rcases sp.auth c' with a | a | ⟨_, y, _, j⟩
+    · exact Or.inl a
+    · exact Or.inr a
+    · exact absurd j (no _ c' y)
+
+/-- **expired credentials never authenticate, whatever else the config says.**  If client `x`'s `ExpiresAt` lies in the
+past — whether or not the client has been claimed by / bound to a user (`UserID`), whatever its stored-secret state —
+then no handshake request naming `x` is answered with success and nobody's authentication changes. -/
+theorem C03_expired_never (s : Srv) (c : Nat) (ty : Ty) (x : Nat) (rr : RespRef) (t : Nat)
+    (he : (s.env.cl x).ExpiresAt = some t) (ht : t < s.now) :
+    (step s (.hs c ty (.idx x) rr)).2 ≠ .ok ∧
+    (∀ c', pairOf ((step s (.hs c ty (.idx x) rr)).1.ctl c') = pairOf (s.ctl c') ∨
+           (step s (.hs c ty (.idx x) rr)).1.ctl c' = none) := by
+  have sp := stepCore_spec s (.hs c ty (.idx x) rr)
+  have hr : (step s (.hs c ty (.idx x) rr)).2 = (stepCore s (.hs c ty (.idx x) rr)).2 := rfl
+  have hexp : expiredAt s.now (s.env.cl x) = true := by
+    simp only [expiredAt, he]; simpa using ht
+  have no : ∀ n' c' y, ¬ Jm s (.hs c ty (.idx x) rr) (stepCore s (.hs c ty (.idx x) rr)).2 n' c' y := by
+    intro n' c' y j
+    obtain ⟨_, _, j | j⟩ := j
+    · obtain ⟨_, hh, _⟩ := j; cases hh
+    · obtain ⟨_, _, _, _, hev, _, hf, _⟩ := j
+      simp only [Event.hs.injEq, CRef.idx.injEq] at hev
+      obtain ⟨_, _, hx, _⟩ := hev
+      subst hx
+      simp only [flagsOK, Bool.and_eq_true, Bool.not_eq_true'] at hf
+      rw [hexp] at hf
+      exact absurd hf.1.1 (by simp)
   rw [hr]
   constructor
   · intro h
@@ -531,6 +568,19 @@ example : holds hdr2 [.hs 0 .control (.idx 0) .none, .hs 1 .control (.idx 0) .no
 /-- 40 phase-1 requests yield 40 different challenges -/
 example : ((run hdr2.init (List.replicate 40 (.hs 1 .control (.idx 0) .none))).map (·.resp)) =
     (List.range 40).map .ch := by decide +kernel
+
+/-- claiming a client keeps its expiry (an expired claimed client is refused), binding clears it, extending renews it -/
+example : (run hdr2.init [.exp 0, .claim 0, .hs 0 .control (.idx 0) .none, .ext 0, .hs 0 .control (.idx 0) .none,
+    .exp 0, .hs 0 .control (.idx 0) (.hmac 0 (.last 0)), .bind 0, .hs 0 .control (.idx 0) .none,
+    .hs 0 .control (.idx 0) (.hmac 0 (.last 0))]).map (·.resp) =
+    [.na, .na, .fail, .na, .ch 0, .na, .fail, .na, .ch 1, .ok] := by decide
+
+/-- the predicate rejects an observation in which an expired, claimed client authenticates -/
+example : holds hdr2 [.exp 0, .claim 0, .hs 0 .control (.idx 0) .none, .hs 0 .control (.idx 0) (.hmac 0 (.last 0))]
+    [⟨.na, ⟨[none, none], [none, none], [false, false], [false, false]⟩⟩,
+     ⟨.na, ⟨[none, none], [none, none], [false, false], [false, false]⟩⟩,
+     ⟨.ch 0, ⟨[some ⟨false, none, some 0⟩, none], [none, none], [false, false], [false, false]⟩⟩,
+     ⟨.ok, ⟨[some ⟨true, some 0, none⟩, none], [some 0, none], [false, false], [false, false]⟩⟩] = false := by decide
 
 /-- the predicate is not trivially true: an observation in which the replayed response is accepted is rejected -/
 example : holds hdr2 [.hs 0 .control (.idx 0) .none, .hs 0 .control (.idx 0) (.hmac 0 (.last 0)),
